@@ -474,7 +474,8 @@ def run_markup(payload):
     return res
 
 
-SC_WORDS = {"a": "Kappa", "b": "Lomax", "c": "Mirren", "d": "Noxon", "e": "Pruitt", "f": "Quill"}
+# (one party name carries an apostrophe: the antecedent regexes capture only the part after it)
+SC_WORDS = {"a": "Kappa", "b": "O'Lomax", "c": "Mirren", "d": "Noxon", "e": "Pruitt", "f": "Quill"}
 SC_RV = {"r1": ("F.2d", "12"), "r2": ("F.3d", "12"), "r3": ("U.S.", "410")}
 SC_CLS = {"full": "FullCaseCitation", "short": "ShortCaseCitation", "supra": "SupraCitation", "id": "IdCitation",
           "section": "UnknownCitation"}
@@ -496,7 +497,14 @@ def render_scenario(cases, items):
             s = f"{df}, supra, at {c['pg'] + 1}."
         elif it["kind"] == "id":
             # (a filler follows a bare "Id." so that two id. forms are never a single character apart)
-            s = "Id. So held." if it["pin"] == -1 else f"Id. at {it['pin']}."
+            if it["pin"] == -1:
+                s = "Id. So held."
+            elif it["ante"]:                       # abbreviated page range: "at 103-05"
+                s = f"Id. at {it['pin']}-{(it['pin'] + 2) % 100:02d}."
+            elif it["pin"] < -1:                   # with a footnote: "at 103, n. 3"
+                s = f"Id. at {-it['pin']}, n. 3."
+            else:
+                s = f"Id. at {it['pin']}."
         else:
             s = "See § 99."
         if k % 3 == 2:
